@@ -7,7 +7,7 @@ import itertools
 
 from ..astutil import cond_terms, inside, norm_cmp
 from ..cfg import CFG, cond_strings
-from ..core import AnalysisError, walk_own
+from ..core import callee_is, AnalysisError, walk_own
 from ..defuse import DefUse, Terms, show, walk_term
 from ..events import container_events, root_name
 from ..paths import path_variants
@@ -377,8 +377,7 @@ def _merge_sort(ctx, f):
     ctx.require(len(whiles) == 1, f"{f.qual}: expected one while loop")
     w = whiles[0]
     calls = [n for n in ast.walk(w) if isinstance(n, ast.Call)
-             and isinstance(n.func, ast.Name)
-             and n.func.id == "get_next_row"]
+             and callee_is(prog, f, n, "mokapot.utils.get_next_row")]
     ctx.require(len(calls) == 1, f"{f.qual}: get_next_row call not found")
     c = calls[0]
     cfg = CFG(f.node)
@@ -418,9 +417,13 @@ def _merge_sort(ctx, f):
         return None
 
     ne = nonempty_of(w.test)
-    ok_loop = ne is not None and no_uids(ne) in (
-        no_uids(Tn.of(c.args[0])) if c.args else None,
-        no_uids(Tn.of(c.args[1])) if len(c.args) > 1 else None)
+    nb = bound_args(prog, Tn.of(c)) or {}
+    cands = [x for x in (nb.get(gp[0]), nb.get(gp[1]), it_def, hd_def)
+             if x is not None]
+    ok_loop = ne is not None and (
+        no_uids(ne) in [no_uids(x) for x in cands]
+        or (root_name(ne) is not None and root_name(ne) in [
+            root_name(x) for x in cands]))
     ctx.check(ok_loop, "C14a-loop-until-exhausted", f,
               "merge loops until no input iterator is left",
               f"loop condition is '{ast.unparse(w.test)}'", node=w)
